@@ -27,7 +27,8 @@ pub struct Case {
     /// (message index, alteration of the genuine message) - one or two of them
     pub alts: Vec<(usize, Msg)>,
     /// 0 = default backend, comfortably large buffers; 1 = ring-preferring backend, payload buffers of exactly the
-    /// payload size (the backends branch on the output size); 2 = ring-preferring backend, large buffers
+    /// payload size (the backends branch on the output size); 2 = ring-preferring backend, large buffers;
+    /// +8 = an extended message is read into a buffer that fits the genuine payload exactly
     #[serde(default)]
     pub variant: u8,
 }
@@ -114,7 +115,8 @@ pub fn run_case(c: &Case) -> (Vec<(String, String)>, bool) {
             let touches_encrypted = !replayed_first
                 && ((altered.len() != genuine.len() && tail_encrypted)
                     || fields.iter().any(|f| f.encrypted && (f.start..f.start + f.len).any(|i| i < genuine.len() && altered.get(i) != genuine.get(i))));
-            e.step(&Op::HsRead { side: r, msg: m.clone(), cap: rcap.clone() });
+            let cap = if c.variant & 8 != 0 && matches!(m, Msg::Altered(_, Alter::Extend(..))) { Cap::Exact(plens[k]) } else { rcap.clone() };
+            e.step(&Op::HsRead { side: r, msg: m.clone(), cap });
             let res = e.steps.last().unwrap().real.clone();
             match &res {
                 Real::Ok(n, _) => {
@@ -217,7 +219,7 @@ fn alterations_with(p: &Proto, k: usize, bit_granular: bool, par: &[Vec<u8>], pl
 pub fn run(tier: Tier) -> i32 {
     let ctx = Ctx::new("C03", tier, "fault_enumeration");
     let quick = ctx.quick();
-    ctx.set_rule("case = (handshake name, message index, alteration of that message: single-bit flips (every bit on the base patterns of 2 suites, one bit per byte + key top bits elsewhere), every truncation length, extension by 1 and 16, replacement by each message of a parallel session / earlier message of this session / zeros); the altered message is delivered instead of the genuine one and the session continues honestly; default backend with large buffers, and (base patterns) the ring-preferring backend with exactly payload-sized and with large payload buffers; payloads of 3/0/7/2 bytes, and (base patterns, every cipher) all payloads empty. Oracle: (a) never both finished without an error; (b) if the altered bytes intersect a field the reference field map marks encrypted, or the length of an encrypted tail changed, the receiving read itself must return Err. Bound 2: two altered messages, or two altered copies of the same message (the second after the first was rejected). non-trivial = the delivered bytes differed from the genuine message");
+    ctx.set_rule("case = (handshake name, message index, alteration of that message: single-bit flips (every bit on the base patterns of 2 suites, one bit per byte + key top bits elsewhere), every truncation length, extension by 1 and 16 (also read into a buffer that fits the genuine payload exactly, both backends), replacement by each message of a parallel session / earlier message of this session / zeros); the altered message is delivered instead of the genuine one and the session continues honestly; default backend with large buffers, and (base patterns) the ring-preferring backend with exactly payload-sized and with large payload buffers; payloads of 3/0/7/2 bytes, and (base patterns, every cipher) all payloads empty. Oracle: (a) never both finished without an error; (b) if the altered bytes intersect a field the reference field map marks encrypted, or the length of an encrypted tail changed, the receiving read itself must return Err. Bound 2: two altered messages, or two altered copies of the same message (the second after the first was rejected). non-trivial = the delivered bytes differed from the genuine message");
     let mut jobs: Vec<(Proto, bool)> = vec![];
     for p in patterns::all_protos_for_suite(DhAlg::X25519, CipherAlg::ChaChaPoly, HashAlg::Blake2s) {
         jobs.push((p, false));
@@ -240,6 +242,13 @@ pub fn run(tier: Tier) -> i32 {
             let mut v = vec![];
             for k in 0..p.n_msgs() {
                 for m in alterations(p, k, *gran, &par) {
+                    if matches!(m, Msg::Altered(_, Alter::Extend(..))) {
+                        // the extended message read into a payload buffer that fits the genuine payload exactly
+                        // (default and ring-preferring backend): a reader that only looks at as much of the input as
+                        // its buffer can hold would accept the genuine prefix
+                        v.push(Case { name: p.name.clone(), alts: vec![(k, m.clone())], variant: 8 });
+                        v.push(Case { name: p.name.clone(), alts: vec![(k, m.clone())], variant: 8 + 2 });
+                    }
                     v.push(Case { name: p.name.clone(), alts: vec![(k, m)], variant: 0 });
                 }
             }
